@@ -16,7 +16,8 @@ PROP = dict(_COMMON,
     level_text="Kernel-checked for all inputs: the longest-chain test holds iff the candidate is strictly longer, at least as heavy over the diverging segment and ends above the tip; an equally long candidate never wins; the ticket rule as coded. "
                "Witness theorems show the pinned orphan branch lowers the tip and the tip-only density check adopts a ticket-less side chain. AddBlockResult class and tip compared with the model after every delivery; the monitor checks height monotonicity, orphan inertness, 'moves only to a better chain' and adoption.",
     level_note="Adoption/monotonicity over whole histories are checked by correspondence + monitor; the pinned tree violates the property on out-of-order deliveries and on interior ticket density (known findings).",
-    lean_modules=["Saito.Props.C05"],
+    lean_modules=["Saito.Props.C05", "Saito.Props.C05Gen"],
+    uses_gen=True,
     nontrivial=lambda op, a: cls(a) in ("added_lc", "added_side"),
     rule="same trees and delivery orders as C03, golden-ticket placement and burn-fee profile (timestamp gaps 201..2500 ms) seeded per tree, plus the 17-block ticket-density witness; non-trivial = distinct delivery accepted onto the longest or a side chain",
 )
